@@ -384,7 +384,14 @@ pub fn print_str_lit(s: &str, quote: char, rng: &mut Rng, out: &mut String) {
                 out.push('\\');
                 out.push(c)
             }
-            '\n' => out.push_str("\\n"),
+            // a raw line break inside a string literal is accepted by the template expression grammar
+            '\n' => {
+                if rng.chance(1, 2) {
+                    out.push_str("\\n")
+                } else {
+                    out.push('\n')
+                }
+            }
             '\r' => out.push_str("\\r"),
             '\t' => {
                 if rng.chance(1, 2) {
